@@ -526,7 +526,8 @@ def case_subview(case):
     from snaxc.transforms.convert_memref_to_arith import ConvertMemrefToArithPass
     from .. import xshim
 
-    bounds, elt, dynmask = case
+    bounds, elt, dynmask = case[:3]
+    chain = len(case) > 3 and case[3]  # pointer of a subview of a subview: both offsets count
     ety = {8: i8, 32: i32, 64: i64}[elt]
     shape = [int(np.prod(b)) for b in bounds]
 
@@ -539,21 +540,36 @@ def case_subview(case):
         static_offs = [memref.DYNAMIC_INDEX if dynmask[d] else 0 for d in range(len(bounds))]
         sizes = [1] * len(bounds)
         res_t = MemRefType(ety, sizes, layout=builtin.StridedLayoutAttr([None] * len(bounds), None))
-        sv = memref.SubviewOp(src.res[0], [o.res[0] for o in offs if o], [], [], static_offs, sizes, [1] * len(bounds), res_t)
+        pre = []
+        cur = src.res[0]
+        offs1 = []
+        if chain:
+            # outer subview keeps the tiled layout (half the outer tiles), as tiling twice produces
+            b1 = [[max(1, bd[0] // 2)] + list(bd[1:]) for bd in bounds]
+            t1 = MemRefType(ety, [int(np.prod(b)) for b in b1], layout=TiledStridedLayoutAttr(mk_tsl(b1, ss)))
+            offs1 = [test.TestOp(result_types=[IndexType()]) if dynmask[d] else None for d in range(len(bounds))]
+            sv1 = memref.SubviewOp(cur, [o.res[0] for o in offs1 if o], [], [], static_offs, [int(np.prod(b)) for b in b1],
+                                   [1] * len(bounds), t1)
+            pre = [o for o in offs1 if o] + [sv1]
+            cur = sv1.result
+        sv = memref.SubviewOp(cur, [o.res[0] for o in offs if o], [], [], static_offs, sizes, [1] * len(bounds), res_t)
         ptr = memref.ExtractAlignedPointerAsIndexOp.get(sv.result)
         use = test.TestOp(operands=[ptr.aligned_pointer])
-        ops = [src] + [o for o in offs if o] + [sv, ptr, use, func.ReturnOp()]
+        ops = [src] + pre + [o for o in offs if o] + [sv, ptr, use, func.ReturnOp()]
         m = ModuleOp([func.FuncOp("f", ((), ()), Region(Block(ops)))])
-        return ss, m, src, offs, use
+        return ss, m, src, (offs, offs1), use
 
-    def execute(m, src, offs, use, base, offvals, intmode=True):
+    def execute(m, src, offs2, use, base, offvals, intmode=True, offvals1=None):
         I = irsym.Interp(W=32, intmode=intmode)
+        offs, offs1 = offs2
 
         def h_test(I, op):
             if op is src:
                 I.set(op.res[0], irsym.Opaque("memref", base=base))
             elif op in offs:
                 I.set(op.res[0], offvals[offs.index(op)])
+            elif op in offs1:
+                I.set(op.res[0], offvals1[offs1.index(op)])
             else:
                 I.emit("use", I.get(op.operands[0]))
 
@@ -562,7 +578,8 @@ def case_subview(case):
             I.set(op.results[0], v.base)
 
         def h_subview(I, op):
-            I.set(op.result, irsym.Opaque("subview"))
+            # memref semantics: a view shares the aligned pointer of its source, its offset lives in the descriptor
+            I.set(op.result, irsym.Opaque("subview", base=I.get(op.source).base))
 
         I.handlers.update({"test.op": h_test, "memref.extract_aligned_pointer_as_index": h_ptr,
                            "memref.subview": h_subview})
@@ -574,18 +591,25 @@ def case_subview(case):
         ConvertMemrefToArithPass().apply(xshim.make_ctx(), m)
         base = z3.Int("base")
         eng().assume(base >= 0)
-        offvals = {}
+        offvals, offvals1 = {}, {}
         x = []
         for d in range(len(bounds)):
             inner = int(np.prod(bounds[d][1:])) if bounds[d][1:] else 1
             if dynmask[d]:
                 t = z3.Int(f"t{d}")
                 eng().assume(z3.And(t >= 0, t < bounds[d][0]))
-                x.append(t * inner)
+                if chain:
+                    u = z3.Int(f"u{d}")
+                    eng().assume(z3.And(u >= 0, t + u < bounds[d][0]))
+                    offvals1[d] = u * inner
+                    x.append((t + u) * inner)
+                else:
+                    x.append(t * inner)
                 offvals[d] = t * inner
             else:
                 x.append(z3.IntVal(0))
-        ev = execute(m, src, offs, use, base, [offvals.get(d) for d in range(len(bounds))])
+        ev = execute(m, src, offs, use, base, [offvals.get(d) for d in range(len(bounds))],
+                     offvals1=[offvals1.get(d) for d in range(len(bounds))])
         eng().oblige("subview_ptr:lowered", z3.BoolVal(len(ev) == 1))
         if len(ev) == 1:
             exp = base + Lambda(bounds, ss, x) * (elt // 8)
@@ -595,21 +619,24 @@ def case_subview(case):
         mm = f["model"]
         ss, m, src, offs, use = build(lambda nm: mval(mm, nm, 1))
         ConvertMemrefToArithPass().apply(xshim.make_ctx(), m)
-        x, offvals = [], {}
+        x, offvals, offvals1 = [], {}, {}
         for d in range(len(bounds)):
             inner = int(np.prod(bounds[d][1:])) if bounds[d][1:] else 1
             if dynmask[d]:
-                x.append(mval(mm, f"t{d}") * inner)
-                offvals[d] = z3.BitVecVal(x[-1], 32)
+                offvals[d] = z3.BitVecVal(mval(mm, f"t{d}") * inner, 32)
+                u = mval(mm, f"u{d}") if chain else 0
+                offvals1[d] = z3.BitVecVal(u * inner, 32)
+                x.append((mval(mm, f"t{d}") + u) * inner)
             else:
                 x.append(0)
         base = mval(mm, "base")
-        ev = execute(m, src, offs, use, z3.BitVecVal(base, 32), [offvals.get(d) for d in range(len(bounds))], False)
+        ev = execute(m, src, offs, use, z3.BitVecVal(base, 32), [offvals.get(d) for d in range(len(bounds))], False,
+                     offvals1=[offvals1.get(d) for d in range(len(bounds))])
         got = irsym.bvval(ev[0][1]) if len(ev) == 1 else None
         exp = (base + Lambda_py(bounds, ss, x) * (elt // 8)) % 2 ** 32
         return got != exp, f"bounds={bounds} steps={ss} offsets={x} ptr={got} expected={exp}"
 
-    return run_case(fn, replay, witness=True, sample=dict(bounds=bounds, elt=elt, dynamic=dynmask), key=str(case))
+    return run_case(fn, replay, witness=True, sample=dict(bounds=bounds, elt=elt, dynamic=dynmask, chain=bool(chain)), key=str(case))
 
 
 # ---------------------------------------------------------------- driver
@@ -723,6 +750,8 @@ def run(chk):
             for mask in itertools.product((True, False), repeat=len(b)):
                 if any(mask):
                     cases.append((b, elt, list(mask)))
+                    if elt == 32:
+                        cases.append((b, elt, list(mask), True))
     if only in (None, "subview"):
         chk.add_results("subview_pointer", pmap(case_subview, cases, chunks=2))
     chk.outside = [
